@@ -564,6 +564,9 @@ func runC18(c *Ctx) {
 		}
 	}
 
+
+	// ---------- error discipline (E8)
+	errDisciplineFor(c, "C18")
 }
 
 // decoderBounds: every constant index / slice bound on parameter prm of f is implied by a dominating guard on len(param).
